@@ -10,7 +10,7 @@ class C03(Check):
     PID = 'C03'
     RULE = ('seeded random bounded-future STL formulas (nested future/past/Boolean/arithmetic, next chains, siblings of different horizons, horizons up to ~15) '
             'and past-time formulas; pastify() then one update() per sample; for every i >= h the output must equal rho(phi, w[0..i], i-h) (Rho.v); '
-            'all outputs are also compared with the model of the pastified monitor; LTL front end on untimed next-formulas; cases outside the guard '
+            'all outputs are also compared with the model of the pastified monitor; LTL front end on untimed next-formulas; partial arithmetic functions (sqrt) above a delayed operand; next-formulas whose sampling period is configured after pastify(); cases outside the guard '
             'future_above_past are judged too (a mismatch there is the known finding); non-trivial = horizon >= 1 and n > h; distinct by (formula, data)')
 
     def gen_cases(self, rng, tier):
@@ -86,6 +86,21 @@ class C03(Check):
         for c in crafted + mods:
             c['fe'] = 'stl'
             cases.append(c)
+        # the sampling period is configured only after pastify() (next / s_next have been turned into delays of one period by then)
+        for k in range(3 if tier == 'quick' else 20):
+            n = rng.choice([5, 8])
+            f = [('and', ('next', X), Y), ('or', ('snext', ('next', X)), Y), ('and', ('next', X), ('evt', 0, 2, Y))][k % 3]
+            cases.append({'f': f, 'n': n, 'nv': 2, 'cols': fml.gen_trace(rng, 2, n), 'times': [i * 0.5 for i in range(n)], 'fe': 'stl', 'late_period': [500, 'ms', 0.1]})
+        # a partial arithmetic function (sqrt, ln, log) above a delayed operand: the original specification is well defined on the whole
+        # trace (perfect squares / powers), the delays of the pastified one hold their -inf padding during the first h updates
+        for k in range(4 if tier == 'quick' else 30):
+            n = rng.choice([4, 6, 9])
+            x = [rng.randint(0, 3) for _ in range(n)]
+            sq = [rng.choice([1, 4, 9, 16]) for _ in range(n)]
+            y = [rng.randint(1, 9)] + [sq[i] - x[i] for i in range(n - 1)]          # x[i] + y[i+1] is a perfect square
+            term = ('a2', 'add', ('var', 0), ('next', ('var', 1)))
+            f = [('pred', 'geq', ('a1', 'sqrt', term), ('const', 1)), ('pred', 'geq', ('a1', 'sqrt', ('a2', 'add', ('var', 0), ('evt', 1, 1, ('var', 1)))), ('const', 2))][k % 2]
+            cases.append({'f': f, 'n': n, 'nv': 2, 'cols': [x, y], 'times': list(range(n)), 'fe': 'stl', 'partial_warmup': 1})
         return cases
 
     def normalize(self, c):
@@ -126,6 +141,10 @@ class C03(Check):
             case.update(modular_spec(c))
         if c.get('fe') == 'ltl':
             case['monitor'] = 'ltl-discrete'
+        if c.get('late_period'):
+            # bounds in seconds: b periods of 500 ms
+            case['spec'] = 'out = ' + fml.to_text(c['f'], lambda b, e: '[%s,%s]' % (repr(b * 0.5), repr(e * 0.5)))
+            case['late_period'] = c['late_period']
         case['calls'] = case['calls'] + [['print']]
         return [case]
 
@@ -133,7 +152,7 @@ class C03(Check):
         m = parse_fields(mlines[0])
         if 'ERROR' in m:
             return 'model-error', mlines
-        if m['EXACT'] != ['1']:
+        if m['EXACT'] != ['1'] and not c.get('partial_warmup'):
             return 'dropped', None
         h = int(m['HOR'][0])
         spec = [None if x == '_' else expect_vals([fml.parse_val(x)])[0] for x in m['SPEC']]
@@ -172,8 +191,17 @@ class C03(Check):
         guard = detail.get('guard_future_above_past', c.get('_guard')) if isinstance(detail, dict) else c.get('_guard')
         as_model = detail.get('same_as_model_of_delay_scheme', c.get('_as_model')) if isinstance(detail, dict) else c.get('_as_model')
         sig['shape'] = 'inside_guard' if guard else ('past_over_future' if as_model else 'past_over_future_not_as_modelled')
+        if c.get('partial_warmup'):
+            sig['shape'] = 'partial_function_over_delay'
+        if c.get('late_period'):
+            sig['shape'] = 'sampling_period_set_after_pastify'
         sig['fe'] = c.get('fe', 'stl')
         return sig
+
+    def still_fails(self, model, c, shape=None):
+        if c.get('partial_warmup') or c.get('late_period'):
+            return False, None      # the data are built for the formula / a fixed configuration: not shrunk
+        return Check.still_fails(self, model, c, shape)
 
     def nontrivial(self, c):
         return c.get('_h', 0) >= 1 and c['n'] > c.get('_h', 0)
